@@ -6,6 +6,7 @@ from ..canon import Snap, problem_diff, vec_diff, mat_diff, nodal_row_index
 from .c07 import rename_hostile
 
 PROPERTY = 'C09'
+gen.OFFGRID = 0.12      # some asset windows start or end strictly between two grid points
 CASES = {'quick': 360, 'thorough': 2880}
 BUDGET_S = {'quick': 240, 'thorough': 2400}
 RULE = ('case = a random mixed portfolio P (transports, storages with two nodes, multi-commodity, CHP/Plant, structured, scaled, order books, '
